@@ -206,6 +206,7 @@ type LayoutClause struct {
 	Text  string
 	Props []string
 	Line  int
+	Pkg   string
 }
 
 // ---------- lexer ----------
